@@ -538,6 +538,23 @@ func directedSets(yield func(Case) bool) {
 		}
 	}
 
+	// code inside an interpolated literal which parses but does not validate (or does not parse, or fails):
+	// once, in a loop, in a function called twice, nested in another interpolation
+	for _, sn := range []cval{{"map-entry-without-key", " {a} "}, {"map-entry-number", " {1} "}, {"loop-var-not-simple", "for a.b in [[]] {\n}"}, {"assign-to-number", "1 := 2"},
+		{"assign-list-to-numbers", "[1, 2] := 3"}, {"parse-error", "1 +"}, {"runtime-error", "1 + [2]"}, {"sink-declaration", "sink s kindmatch [\\\"a\\\"] {\n}"}, {"return", "return 5"}, {"break", "break"}} {
+		lit := "\"x{{" + sn.Lit + "}}y\""
+		for _, f := range []struct{ form, src string }{
+			{"once", "s := " + lit},
+			{"loop", "for i in [1, 2, 3] {\n    s := " + lit + "\n}"},
+			{"func-twice", "func f() {\n    return " + lit + "\n}\nf()\nf()"},
+			{"in-condition-loop", "n := 0\nfor n < 2 {\n    n := n + 1\n    if " + lit + " == \"\" {\n        n := 5\n    }\n}"},
+		} {
+			if !yield(Case{Kind: "directed", Src: f.src, Key: "directed:interpolated-code(" + sn.Name + "," + f.form + ")"}) {
+				return
+			}
+		}
+	}
+
 	// setCronTrigger with cron specs which pass validation (the provider's cron thread is stopped, nothing
 	// fires) and with malformed ones
 	for _, spec := range []string{"1 1 1 1 1 1", "* * * * * *", "*%2 *%3 *%5 *%7 *%11 *%3", "0,1,59 0-59 1 1 1 0", "*%1 * * * * *", "*%0 * * * * *", "*% * * * * *",
